@@ -313,3 +313,6 @@ package mem
 //@   ensures "tree-file" [C03] implies(old(keyvalue.treeInv(fs.kv)) && !old(keyvalue.rnSrcDir(fs.kv, oldname)), keyvalue.treeInv(fs.kv))
 //@   ensures "inv" memOK(fs)
 //@   nopanic
+
+//@ func (s *store) Set(ctx context.Context, path string, src keyvalue.FileRecord) (err error)
+//@   inline
